@@ -25,10 +25,12 @@ git checkout -q -- src
 without=$(cargo test --offline --test zz_demo 2>&1 | grep "test result" | tail -1)
 echo "demo without change: $without"
 rm -f tests/zz_demo.rs
-# now the checks against /repo
+# now the checks against /repo (CONFIRM_ONLY=1: leave them to tools/recheck_seed.py, so that
+# confirmations of several seeds can run in parallel while /repo stays untouched)
 cd /verif
-git -C /repo apply "$P" || { echo "cannot apply to /repo"; exit 3; }
 res=""
+if [ -z "${CONFIRM_ONLY:-}" ]; then
+git -C /repo apply "$P" || { echo "cannot apply to /repo"; exit 3; }
 for pr in $PROPS; do
   out=$(./check $pr quick 2>&1); rc=$?
   sig=$(echo "$out" | grep -m3 "signature=" | sed 's/^ *//' | tr '\n' ';')
@@ -36,6 +38,9 @@ for pr in $PROPS; do
   res="$res{\"property\":\"$pr\",\"exit\":$rc,\"signatures\":\"$(echo $sig | sed 's/"/\\"/g')\"},"
 done
 git -C /repo checkout -q -- .
+else
+for pr in $PROPS; do res="$res{\"property\":\"$pr\",\"exit\":-1,\"signatures\":\"\"},"; done
+fi
 mkdir -p /verif/seeded/$SID
 cp "$P" /verif/seeded/$SID/patch.diff; cp "$D" /verif/seeded/$SID/demo.rs
 [ -f "$SUB/notes.md" ] && cp "$SUB/notes.md" /verif/seeded/$SID/notes.md
